@@ -15,8 +15,8 @@ let print_val = function
   | VProg n -> "G" ^ string_of_int (int_of_n n)
 let print_opt = function None -> "A" | Some v -> print_val v
 let next_key st = let m = next_str st in let a = next_str st in (m, a)
-let parse_kind = function "P" -> KPlain | "F" -> KFake | "J" -> KProj | k -> failwith ("bad kind " ^ k)
-let print_kind = function KPlain -> "P" | KFake -> "F" | KProj -> "J"
+let parse_kind = function "P" -> KPlain | "F" -> KFake | "J" -> KProj | "R" -> KRel | k -> failwith ("bad kind " ^ k)
+let print_kind = function KPlain -> "P" | KFake -> "F" | KProj -> "J" | KRel -> "R"
 
 (* state: <nkeys> (mod attr val|A)* <cwd> <npath> path* <nmeta> meta* <nmods> (name kind)*  *)
 let next_state st =
@@ -139,6 +139,23 @@ let handle line =
   | "L" ->
     let (keys, s) = next_state st in
     print_state keys (interleaved_outer s)
+  | "G" ->
+    (* egg-info fall-back on a source directory: files of the project, then what the really executed script does *)
+    let proj = next_list st (fun st -> let n = next_str st in (n, n_of_int 0)) in
+    let ops = next_list st (fun st ->
+        match next st with
+        | "w" -> let n = next_str st in let c = n_of_int (next_int st) in FbWrite (n, c)
+        | "x" -> let n = next_str st in let c = n_of_int (next_int st) in FbReplace (n, c)
+        | "u" -> FbRemove (next_str st)
+        | t -> failwith ("bad fbop " ^ t)) in
+    let after = fallback_dir ops proj in
+    (* names of project files whose content changed, or that disappeared / appeared *)
+    let changed = List.filter_map (fun (n, c) ->
+        match List.assoc_opt n after with
+        | Some c' -> if c' = c then None else Some (cl_hex n)
+        | None -> Some (cl_hex n)) proj
+      @ List.filter_map (fun (n, _) -> if List.mem_assoc n proj then None else Some (cl_hex n)) after in
+    if changed = [] then "-" else String.concat " " (List.sort compare changed)
   | "T" ->
     (* two PEP 517 analyses on two threads: cwd0 srcA srcB dirsA dirsB schedule(1 = thread A) *)
     let cwd0 = next_str st in let a = next_str st in let b = next_str st in
